@@ -108,8 +108,8 @@ def freeze(state):
 
 
 class Reporter:
-    def __init__(self, col, where, detail):
-        self.col, self.where, self.detail = col, where, detail
+    def __init__(self, col, where, detail, sig_prefix=""):
+        self.col, self.where, self.detail, self.sig_prefix = col, where, detail, sig_prefix
 
     def __call__(self, ok, sig, what, **extra):
         if ok:
@@ -117,7 +117,7 @@ class Reporter:
         d = dict(self.detail)
         d.update(extra)
         d["failed"] = what
-        self.col.violation("%s :: %s" % (self.where, what), d, sig=sig)
+        self.col.violation("%s :: %s" % (self.where, what), d, sig=self.sig_prefix + sig)
         return False
 
 
@@ -263,7 +263,10 @@ def drv_scale(c, ctx, col):
     where = "%s x=%r (%s)" % (expr, x, kind)
     rep = Reporter(col, where, {"x": x, "transform": expr, "container": kind,
                                 "repro": "from formulaic.transforms import TRANSFORMS as T; import numpy; st = {}; "
-                                         "T[%r](numpy.array(%r), %s_state=st)" % (cfg[0], x, "".join("%s=%r, " % kv for kv in kw.items()))})
+                                         "T[%r](numpy.array(%r%s), %s_state=st)" % (cfg[0], [int(v) for v in x] if kind in ("int64", "int32") else x,
+                                                                                  ", dtype=%r" % kind if kind in ("int64", "int32") else "",
+                                                                                  "".join("%s=%r, " % kv for kv in kw.items()))},
+                   sig_prefix="integer-input:" if kind in ("int64", "int32") else "")
     orc = ScaleOracle(x, cfg)
     if orc.center or orc.scale:
         col.interesting()
